@@ -7,6 +7,13 @@ for seed in $(seq $1 $2); do
   for p in C02 C03 C04 C05 C08 C09 C10 C11 C12 C13 C15 C16 C17 C20; do
     $BIN batch --prop $p --tier thorough --seed $seed ${3:+--runs $3} --workers 8 --out $out/$p-$seed.json --replay-dir $out/replays-$p-$seed >/dev/null 2>&1
     rc=$?
+    if [ -x /root/sweepbin/rrtk-sim-shipped ] && [ $((seed % 2)) -eq 0 ]; then
+      /root/sweepbin/rrtk-sim-shipped batch --prop $p --tier thorough --seed $seed --runs 200000 --workers 8 --out $out/$p-$seed-shipped.json --replay-dir $out/replays-$p-$seed-shipped >/dev/null 2>&1
+      echo "seed=$seed prop=$p shipped rc=$? $(python3 -c "
+import json
+d=json.load(open('$out/$p-$seed-shipped.json'))
+print('runs',d['runs'],'failing',d['failing_runs'],[f['signature'] for f in d['failures']])" 2>/dev/null)"
+    fi
     echo "seed=$seed prop=$p rc=$rc $(python3 -c "
 import json
 d=json.load(open('$out/$p-$seed.json'))
